@@ -1,7 +1,8 @@
 (* C14 -- CSS codec: detection priority, inverse, chunking invariance.
    Property theorems only; proofs are in CssV.CodecDetect / CssV.CodecFacts.
    Subjects: Gen/CodecFns.v (regenerated from _codec3.py on every run) and Codec.v (hand-written model). *)
-From CssV Require Import Base CodecPyLib Gen.CodecFns Codec CodecConcrete CodecDetect CodecFacts CodecInverse CodecInstances.
+From CssV Require Import Base CodecPyLib Gen.CodecFns Codec CodecConcrete CodecDetect CodecFacts CodecInverse CodecInstances
+  CodecUtf8 CodecStream CodecBom.
 
 (* ---------------------------------------------------------------- detection (generated detectencoding_str) *)
 (* never IndexError *)
@@ -232,11 +233,12 @@ Section C14_detected.
     decode dshot b None force = Ok (prefix ++ utf16 ++ 34%N :: rest).
   Proof. exact (decode_encode_utf16_thm dshot eshot). Qed.
 
-  (* no leading rule: UTF-8 both ways, text unchanged *)
+  (* no leading rule: UTF-8 both ways, text unchanged.  default_shape b: no bytes, or a first byte that is none of
+     ef ff fe 40 00, or '@' not followed by NUL and not the head of an @charset rule, or ef that is not the BOM *)
   Theorem decode_encode_detected_norule : forall t b force,
     starts prefix t = false ->
     (forall x y, eshot utf8 x = Ok y -> dshot utf8 y = Ok x) ->
-    (b = [] \/ exists b0 r, b = b0 :: r /\ b0 <> 239 /\ b0 <> 255 /\ b0 <> 254 /\ b0 <> 64 /\ b0 <> 0)%N ->
+    default_shape b ->
     encode eshot t None = Ok b ->
     decode dshot b None force = Ok t.
   Proof. exact (decode_encode_norule_thm dshot eshot). Qed.
@@ -298,6 +300,147 @@ Theorem enc_feed_is_collapsed_trace : forall est einit estep chunks st last,
 Proof. exact enc_feed_trace. Qed.
 Print Assumptions enc_feed_is_collapsed_trace.
 
+(* ---------------------------------------------------------------- round 2: UTF-8/16/32 round trips *)
+Theorem detect_priority_default_shapes : forall b, default_shape b -> detectencoding_str b true = Some (Some utf8, false).
+Proof. exact default_shape_detect. Qed.
+Print Assumptions detect_priority_default_shapes.
+
+(* the Gallina UTF-8 codec: valid text (no surrogates, <= U+10FFFF) encodes, and decodes back to itself;
+   a text with a surrogate is rejected by the encoder, as by CPython's strict codec *)
+Theorem utf8_dec_enc : forall t, valid_text t = true -> exists b, encode8 t = Ok b /\ decode8 b = Ok t.
+Proof. exact utf8_dec_enc. Qed.
+Print Assumptions utf8_dec_enc.
+Theorem utf8_dec_enc_ok : forall t b, encode8 t = Ok b -> decode8 b = Ok t.
+Proof. exact utf8_dec_enc_ok. Qed.
+Print Assumptions utf8_dec_enc_ok.
+Theorem utf8_encode_invalid : forall t, valid_text t = false -> encode8 t = Err EUnicode.
+Proof. exact utf8_encode_invalid. Qed.
+Print Assumptions utf8_encode_invalid.
+
+(* every decoder of the proved table inverts every encoder of the same kind (utf-8, utf-16-le/-be, utf-32-le/-be,
+   latin-1, ascii); e and e2 are two spellings of the same codec *)
+Theorem codec_table_inverse : forall e e2 x y, r_init e2 <> None -> lookup e = lookup e2 ->
+  ce_shot e x = Ok y -> r_shot e2 y = Ok x.
+Proof. exact r_inverse. Qed.
+Print Assumptions codec_table_inverse.
+
+(* closed: no encoding argument anywhere, no codec hypothesis *)
+Theorem decode_encode_detected_utf8 : forall e rest b force,
+  lookup e = Some K8 -> ascii e = true -> ~ In 34%N e -> is_css e = false ->
+  encode ce_shot (prefix ++ e ++ 34%N :: rest) None = Ok b ->
+  decode r_shot b None force = Ok (prefix ++ e ++ 34%N :: rest).
+Proof. exact decode_encode_detected_utf8. Qed.
+Print Assumptions decode_encode_detected_utf8.
+
+(* head_ok t: the text does not begin with NUL or U+FEFF, and no NUL follows a leading '@' *)
+Theorem decode_encode_detected_norule_utf8 : forall t b force,
+  head_ok t -> starts prefix t = false ->
+  encode ce_shot t None = Ok b -> decode r_shot b None force = Ok t.
+Proof. exact decode_encode_detected_norule_utf8. Qed.
+Print Assumptions decode_encode_detected_norule_utf8.
+
+Theorem decode_encode_detected_wide : forall e k rest b force,
+  lookup e = Some k ->
+  (k = K16 (Some true) \/ k = K16 (Some false) \/ k = K32 (Some true) \/ k = K32 (Some false)) ->
+  ~ In 34%N e -> is_css e = false ->
+  encode ce_shot (prefix ++ e ++ 34%N :: rest) None = Ok b ->
+  decode r_shot b None force = Ok (prefix ++ canon k ++ 34%N :: rest).
+Proof. exact decode_encode_detected_wide. Qed.
+Print Assumptions decode_encode_detected_wide.
+
+(* ---------------------------------------------------------------- round 2: the BOM-sniffing decoders, the whole table *)
+(* the incremental laws hold for EVERY state of EVERY Gallina decoder (utf-16, utf-32, utf-8-sig included) *)
+Theorem cd_concat_all_states : forall d a b fin d' o1, cd_step d a false = (d', Ok o1) ->
+  cd_step d (a ++ b) fin =
+  (fst (cd_step d' b fin), match snd (cd_step d' b fin) with Ok o2 => Ok (o1 ++ o2) | Err e => Err e end).
+Proof. exact cd_concat. Qed.
+Print Assumptions cd_concat_all_states.
+Theorem cd_error_all_states : forall d a b fin d' e, cd_step d a false = (d', Err e) -> snd (cd_step d (a ++ b) fin) = Err e.
+Proof. exact cd_error. Qed.
+Print Assumptions cd_error_all_states.
+
+(* the one-shot law holds exactly outside `divergent`; inside, one side raises and the other returns text *)
+Theorem oneshot_law_exact : forall e b,
+  if divergent e b then is_ok (cd_shot e b) = negb (is_ok (cd_final e b)) else cd_shot e b = cd_final e b.
+Proof. exact cd_shot_vs_final. Qed.
+Print Assumptions oneshot_law_exact.
+
+(* chunking invariance of the css incremental decoder over the WHOLE Gallina table, for every input outside the
+   divergent set; on the divergent set the two results differ already for a single chunk: the two open findings
+   C14-cpython-utf16-utf32-without-bom / C14-cpython-utf8sig-truncated-bom are exactly `divergent_input` *)
+Theorem incdec_chunking_full : forall enc force chunks last,
+  divergent_input enc force (concat chunks ++ last) = false ->
+  c_dec_feed enc force chunks last = c_decode (concat chunks ++ last) enc force.
+Proof. exact incdec_chunking_full. Qed.
+Print Assumptions incdec_chunking_full.
+
+Theorem incdec_chunking_refuted_on_divergent : forall enc force w,
+  divergent_input enc force w = true ->
+  is_ok (c_dec_feed enc force [] w) = negb (is_ok (c_decode w enc force)).
+Proof. exact divergence_is_real. Qed.
+Print Assumptions incdec_chunking_refuted_on_divergent.
+
+(* an encoding found through its BOM is never divergent: only an explicit argument or an ASCII @charset rule can name
+   a BOM-requiring codec for BOM-less data *)
+Theorem bom_detected_not_divergent : forall force w,
+  ((exists r, w = 239 :: 187 :: 191 :: r) \/
+   (exists b2 b3 r, w = 255 :: 254 :: b2 :: b3 :: r /\ (b2 <> 0 \/ b3 <> 0)) \/
+   (exists r, w = 254 :: 255 :: r) \/
+   (exists r, w = 255 :: 254 :: 0 :: 0 :: r) \/
+   (exists r, w = 0 :: 0 :: 254 :: 255 :: r))%N ->
+  divergent_input None force w = false.
+Proof. exact bom_detected_not_divergent. Qed.
+Print Assumptions bom_detected_not_divergent.
+
+(* ---------------------------------------------------------------- round 2: StreamReader *)
+(* codecs.getreader('css'): accumulate + stateless decode without `final` (Codec.sr_step, compared with the class per
+   decode call).  It cannot equal the one-shot decoder; what holds: *)
+Section C14_reader.
+  Variable dst : Type.
+  Variable dinit : str -> option dst.
+  Variable dstep : dst -> str -> bool -> dst * res str.
+  Variable dshot : str -> str -> res str.
+  Hypothesis dstep_concat : forall d a b fin d' o1, dstep d a false = (d', Ok o1) ->
+    dstep d (a ++ b) fin =
+    (fst (dstep d' b fin), match snd (dstep d' b fin) with Ok o2 => Ok (o1 ++ o2) | Err e => Err e end).
+  Hypothesis dstep_error : forall d a b fin d' e, dstep d a false = (d', Err e) -> snd (dstep d (a ++ b) fin) = Err e.
+
+  (* how the stream is cut into reads does not matter (the trace ends with the call at end of stream) *)
+  Theorem streamreader_chunking : forall chunks st,
+    collapse (sr_trace dst dinit dstep st chunks) = snd (sr_step dst dinit dstep st (concat chunks)).
+  Proof. exact (sr_chunking_thm dst dinit dstep dstep_concat dstep_error). Qed.
+
+  (* once the header is decided (a reader was adopted) the text returned so far is a prefix of the one-shot text; the
+     rest is exactly what the underlying decoder still emits when told `final`: nothing is lost or altered *)
+  Theorem streamreader_decided : forall enc force w st' r d',
+    sr_step dst dinit dstep (sr_init dst enc force) w = (st', Ok r) -> @rs_dec dst st' = Some d' ->
+    (forall e, pick_encoding enc force w true = PEnc e ->
+       dshot e w = match dinit e with None => Err ELookup | Some d => snd (dstep d w true) end) ->
+    decode dshot w enc force = match snd (dstep d' [] true) with Ok o2 => Ok (r ++ o2) | Err e => Err e end.
+  Proof. exact (sr_decided_thm dst dinit dstep dshot dstep_concat). Qed.
+
+  (* before that nothing is returned and every byte is kept *)
+  Theorem streamreader_undecided : forall enc force w st' r,
+    sr_step dst dinit dstep (sr_init dst enc force) w = (st', Ok r) -> @rs_dec dst st' = None ->
+    r = [] /\ @rs_bytes dst st' = w.
+  Proof. exact (sr_undecided_thm dst dinit dstep). Qed.
+End C14_reader.
+Print Assumptions streamreader_chunking.
+Print Assumptions streamreader_decided.
+Print Assumptions streamreader_undecided.
+
+Theorem streamreader_chunking_full : forall enc force chunks,
+  collapse (c_sr_trace enc force chunks) = snd (sr_step cdst cd_init cd_step (sr_init cdst enc force) (concat chunks)).
+Proof. exact sr_chunking_full. Qed.
+Print Assumptions streamreader_chunking_full.
+
+Theorem streamreader_decided_full : forall enc force w st' r d',
+  sr_step cdst cd_init cd_step (sr_init cdst enc force) w = (st', Ok r) -> @rs_dec cdst st' = Some d' ->
+  divergent_input enc force w = false ->
+  c_decode w enc force = match snd (cd_step d' [] true) with Ok o2 => Ok (r ++ o2) | Err e => Err e end.
+Proof. exact sr_decided_full. Qed.
+Print Assumptions streamreader_decided_full.
+
 (* ---------------------------------------------------------------- non-vacuity *)
 (* the hypotheses hold for a concrete codec, and the theorem then speaks about a non-trivial run:
    the header is cut inside the rule, the name is rewritten from x to latin-1 *)
@@ -352,4 +495,28 @@ Proof. vm_compute. reflexivity. Qed.
 Example streamwriter_instance :
   collapse (c_sw_trace None [s "@char"; s "set ""utf-8"";"; s "a"]) = Ok (s "@charset ""utf-8"";a")
   /\ c_sw_trace None [s "@char"; s "set ""x"] = [Ok []; Ok []].
+Proof. split; vm_compute; reflexivity. Qed.
+
+Example utf8_dec_enc_instance :
+  encode8 [228; 8364; 128512]%N = Ok [195; 164; 226; 130; 172; 240; 159; 152; 128]%N
+  /\ decode8 [195; 164; 226; 130; 172; 240; 159; 152; 128]%N = Ok [228; 8364; 128512]%N
+  /\ encode8 [97; 55296]%N = Err EUnicode /\ decode8 [237; 160; 128]%N = Err EUnicode.
+Proof. repeat split; vm_compute; reflexivity. Qed.
+
+Example decode_encode_detected_norule_utf8_instance :
+  decode r_shot (s "@import ""x"";") None true = Ok (s "@import ""x"";")
+  /\ encode ce_shot (s "@import ""x"";") None = Ok (s "@import ""x"";").
+Proof. split; vm_compute; reflexivity. Qed.
+
+Example divergent_instances :
+  divergent_input (Some (s "utf-16")) true [97; 0]%N = true
+  /\ divergent_input None true (s "@charset ""utf-16"";") = true
+  /\ divergent_input (Some (s "utf-8-sig")) true [239; 187]%N = true
+  /\ divergent_input None true [255; 254; 97; 0]%N = false
+  /\ divergent_input (Some (s "utf-16")) true [0; 216]%N = false.
+Proof. repeat split; vm_compute; reflexivity. Qed.
+
+Example streamreader_instance :
+  c_sr_trace (Some (s "utf-8")) true [s "@char"; s "set ""x"";a"; [195]%N] = [Ok []; Ok (s "@charset ""utf-8"";a"); Ok []; Ok []]
+  /\ c_sr_trace None true [s "@charset ""x"] = [Ok []; Ok []].
 Proof. split; vm_compute; reflexivity. Qed.
